@@ -41,10 +41,10 @@ fn h_load_one<const N: usize, S: Src>(s: &mut S) {
 }
 
 harnesses! {
-    #[kani::proof] #[kani::unwind(20)] load_one_63 => h_load_one::<63, _>;
-    #[kani::proof] #[kani::unwind(20)] load_one_64 => h_load_one::<64, _>;
-    #[kani::proof] #[kani::unwind(20)] load_one_67 => h_load_one::<67, _>;
-    #[kani::proof] #[kani::unwind(20)] load_one_72 => h_load_one::<72, _>;
+    #[kani::proof] #[kani::unwind(22)] load_one_63 => h_load_one::<63, _>;
+    #[kani::proof] #[kani::unwind(22)] load_one_64 => h_load_one::<64, _>;
+    #[kani::proof] #[kani::unwind(22)] load_one_67 => h_load_one::<67, _>;
+    #[kani::proof] #[kani::unwind(22)] load_one_72 => h_load_one::<72, _>;
     #[kani::proof] #[kani::unwind(28)] load_one_80 => h_load_one::<80, _>;
     #[kani::proof] #[kani::unwind(44)] load_one_96 => h_load_one::<96, _>;
 }
